@@ -370,12 +370,13 @@ converter.register_unstructure_hook({class_name}, _unstructure_{class_name.lower
             if ps.name and self.all_schemas:
                 enum_schema = self.all_schemas.get(ps.name)
                 if enum_schema and enum_schema.enum:
-                    # This is an enum field - convert default value to enum member access
-                    # e.g., "default" -> JobPriorityEnum.DEFAULT
-                    default_str = str(ps.default)
-                    # Convert the value to the enum member name (e.g., "default" -> "DEFAULT")
-                    enum_member_name = default_str.upper().replace("-", "_").replace(" ", "_")
-                    return f"{ps.name}.{enum_member_name}"
+                    # This is an enum field - look the member up by value, e.g. "default" -> JobPriorityEnum("default").
+                    # (Deriving a member *name* from the value here would have to repeat EnumGenerator's sanitising and
+                    # de-duplication exactly, and raw spec text must never be written as code.)
+                    if isinstance(ps.default, str):
+                        return f"{ps.name}({python_string_literal(ps.default)})"
+                    if isinstance(ps.default, int) and not isinstance(ps.default, bool):
+                        return f"{ps.name}({ps.default})"
 
             if isinstance(ps.default, str):
                 return python_string_literal(ps.default)
